@@ -29,6 +29,8 @@ def spl_contract_cases(seed, count, max_side, tag):
                     sp["Ka"] = [rng.choice(["0", "1e-4", "1", "3", "1e3"]) for _ in range(n)]
                 if rng.random() < 0.3:
                     sp["A"] = [str(rng.randint(1, 50)) for _ in range(n)]
+                if rng.random() < 0.3:
+                    sp["setters"] = 1
                 steps.append(sp)
             # one eroder object serves several steps while the graph changes under it (mask, base
             # levels, other fields): nodes become terminal / masked / lakes between two calls
@@ -152,7 +154,7 @@ def spl_exact_cases(seed, count, tag):
         for tol in ("1e-3", "1e-6"):
             steps.append(dict(op="spl", g=0, m=str(m), n={1: "0.5", 2: "1", 4: "2", 6: "3"}[ncode], tol=tol, dt="1",
                               Ka=[str(x) for x in K], A=[str(x) for x in A], h=[str(x) for x in h],
-                              expect=hp, f=f, ncode=ncode))
+                              expect=hp, f=f, ncode=ncode, setters=1 if (tol == "1e-6" and rng.random() < 0.5) else 0))
         # scalar erodibility when it happens to be uniform
         steps.append(dict(op="drop", g=0))
         yield flow_case("%s-%d-%d" % (tag, seed, made), g, steps)
